@@ -308,6 +308,20 @@ Definition launch_cmdline (cmd : str) (env : list (str * str)) : res exec_call :
   let ws := match ws with [] => [[]] | _ => ws end in
   launch_argv (hd [] ws) (S (length ws)) (map Some ws ++ [None]) env.
 
+(* Process.cpp carries the argv/env preparation twice - open(executable, argc, argv, streams, environment) and
+   start(program, argc, argv, environment) - and the loop that copies the split words into an argv array twice -
+   open(commandLine, ..) and start(commandLine, ..).  The functions above are the open() entry points; the start()
+   entry points are named separately (the text of the code is the same today, an edit of one copy is not an edit of
+   the other): each has its own statement in Properties_C20 and its own launches in the correspondence check. *)
+Definition start_argv (program : str) (argc : nat) (argv : list (option str)) (env : list (str * str)) : res exec_call :=
+  args <- prepare_args program argc argv ;;
+  Ok {| x_program := program; x_args := until_null args; x_env := child_env env |}.
+
+Definition start_cmdline (cmd : str) (env : list (str * str)) : res exec_call :=
+  ws <- split_model cmd ;;
+  let ws := match ws with [] => [[]] | _ => ws end in
+  start_argv (hd [] ws) (S (length ws)) (map Some ws ++ [None]) env.
+
 (* open(executable, List<String> args, streams, environment) *)
 Definition launch_list (exe : str) (args : list str) (env : list (str * str)) : res exec_call :=
   launch_argv exe (length args) (map Some args) env.     (* repaired: environment was not passed on *)
